@@ -326,7 +326,7 @@ peg::parser! {
             }
 
         pub(crate) rule case_item_ns() -> ast::CaseItem =
-            s:specific_operator("(")? p:pattern() specific_operator(")") c:compound_list() {
+            s:case_item_start() p:pattern() specific_operator(")") c:compound_list() {
                 let start = s.map(Token::location).or_else(|| p.first().and_then(|w| w.loc.as_ref()));
                 let end = c.location();
 
@@ -334,7 +334,7 @@ peg::parser! {
 
                 ast::CaseItem { patterns: p, cmd: Some(c), post_action: ast::CaseItemPostAction::ExitCase, loc }
             } /
-            s:specific_operator("(")? p:pattern() e:specific_operator(")") linebreak() {
+            s:case_item_start() p:pattern() e:specific_operator(")") linebreak() {
                 let start = s.map(Token::location).or_else(|| p.first().and_then(|w| w.loc.as_ref()));
                 let end = Some(e.location());
 
@@ -343,13 +343,13 @@ peg::parser! {
             }
 
         pub(crate) rule case_item() -> ast::CaseItem =
-            s:specific_operator("(")? p:pattern() specific_operator(")") linebreak() post_action:case_item_post_action() linebreak() {
+            s:case_item_start() p:pattern() specific_operator(")") linebreak() post_action:case_item_post_action() linebreak() {
                 let start = s.map(Token::location).or_else(|| p.first().and_then(|w| w.loc.as_ref()));
                 let end = Some(post_action.1);
                 let loc = maybe_location(start, end);
                 ast::CaseItem { patterns: p, cmd: None, post_action: post_action.0, loc }
             } /
-            s:specific_operator("(")? p:pattern() specific_operator(")") c:compound_list() post_action:case_item_post_action() linebreak() {
+            s:case_item_start() p:pattern() specific_operator(")") c:compound_list() post_action:case_item_post_action() linebreak() {
                 let start = s.map(Token::location).or_else(|| p.first().and_then(|w| w.loc.as_ref()));
                 let end = Some(post_action.1);
                 let loc = maybe_location(start, end);
@@ -366,6 +366,12 @@ peg::parser! {
             non_posix_extensions_enabled() s:specific_operator(";&") {
                 (ast::CaseItemPostAction::UnconditionallyExecuteNextCaseItem, s.location())
             }
+
+        // N.B. An item starts with an optional `(`; without it the first pattern cannot be the
+        // reserved word `esac`, which closes the clause (`( case x in x) : ;; esac )`).
+        rule case_item_start() -> Option<&'input Token> =
+            s:specific_operator("(") { Some(s) } /
+            !specific_word("esac") { None }
 
         rule pattern() -> Vec<ast::Word> =
             (w:word() { ast::Word::from(w) }) ++ specific_operator("|")
